@@ -134,3 +134,24 @@ t('indefinite record with open types: not checked', lambda: bd.decode(bytes.from
 Bare = univ.Sequence(subtypeSpec=constraint.ValueSizeConstraint(5, 5))
 t('indefinite SEQUENCE without declared components, SIZE(5)', lambda: bd.decode(bytes.fromhex('30800201010000'), asn1Spec=Bare)[0].prettyPrint())
 t('definite  SEQUENCE without declared components, SIZE(5)', lambda: bd.decode(bytes.fromhex('3003020101'), asn1Spec=Bare)[0].prettyPrint())
+
+print('--- C04.readers (C04): reads store placeholders')
+
+
+class Inner(univ.Sequence):
+    componentType = namedtype.NamedTypes(namedtype.OptionalNamedType('x', univ.Integer()), namedtype.OptionalNamedType('y', univ.Integer()))
+
+
+class Outer(univ.Sequence):
+    componentType = namedtype.NamedTypes(namedtype.DefaultedNamedType('d', Inner()))
+
+
+o = Outer()
+t('der(o) before the read', lambda: de.encode(o).hex())
+t('o[0][1].isValue', lambda: o[0][1].isValue)
+t('der(o) after the read', lambda: de.encode(o).hex())
+s2 = univ.SequenceOf(componentType=univ.Integer())
+s2.extend([1, 2])
+t('der(s) before', lambda: de.encode(s2).hex())
+t('s[2].isValue', lambda: s2[2].isValue)
+t('der(s) after', lambda: de.encode(s2).hex())
